@@ -401,6 +401,8 @@ class BatchTie:
             pos += len(ls)
             ok = True
             for i, (a, b) in enumerate(zip(impl, got)):
+                if a is None:
+                    continue      # intermediate line of a composite operation
                 if a != b and not (self.skip and self.skip(a, b)):
                     self.ctx.tie_broken.append(
                         "correspondence:%s %s line %d %r impl=%s lean=%s"
